@@ -7,6 +7,9 @@ From DnsV Require Export Base.Bytes Spec.Handles Model.Refcount.
 Open Scope N_scope.
 
 Record obs := mkObs {
+  o_full : bool;                    (* false: the next operation was already waiting on a lock when this one
+                                       finished, so there was no quiescent moment to look at the state; only
+                                       the events, the result and the two counters were observed *)
   o_events : list event;            (* events of this step, oldest first *)
   o_res : N;                        (* 0 ok, 1 open error, 2 validation key not found, 3 timeout *)
   o_served : nat;                   (* backend id behind FBDNSDB.dnsdb *)
@@ -24,8 +27,8 @@ Record case := mk {
 Definition E (b o : N) : event := (N.to_nat b, o).
 Definition Rf (b rc : N) (d : bool) : nat * (N * bool) := (N.to_nat b, (rc, d)).
 Definition Pn (slot b : N) : nat * nat := (N.to_nat slot, N.to_nat b).
-Definition Ob (ev : list event) (res served : N) (refs : list (nat * (N * bool))) (pins : list (nat * nat))
-  (uac dc : N) : obs := mkObs ev res (N.to_nat served) refs pins uac dc.
+Definition Ob (full : bool) (ev : list event) (res served : N) (refs : list (nat * (N * bool)))
+  (pins : list (nat * nat)) (uac dc : N) : obs := mkObs full ev res (N.to_nat served) refs pins uac dc.
 Definition St (o : op) (ob : obs) : op * obs := (o, ob).
 Definition OAcq (r : N) := Acquire (N.to_nat r).
 Definition OUse (r : N) := Use (N.to_nat r).
@@ -65,10 +68,11 @@ Definition pin_ok (s : state) (x : nat * nat) : bool :=
 Definition step_ok (o : op) (s s' : state) (ob : obs) : bool :=
   evs_eqb (delta s s') (o_events ob)
   && (op_result o =? o_res ob)
-  && Nat.eqb (w_bk (ws s' (served s'))) (o_served ob)
-  && forallb (ref_ok s') (o_refs ob)
-  && forallb (pin_ok s') (o_pins ob)
-  && Nat.eqb (length (readers s')) (length (o_pins ob)).
+  && (negb (o_full ob) ||
+      (Nat.eqb (w_bk (ws s' (served s'))) (o_served ob)
+       && forallb (ref_ok s') (o_refs ob)
+       && forallb (pin_ok s') (o_pins ob)
+       && Nat.eqb (length (readers s')) (length (o_pins ob)))).
 
 Fixpoint steps_ok (s : state) (l : list (op * obs)) : bool :=
   match l with
@@ -96,7 +100,7 @@ Fixpoint spec_steps (lg : list event) (sh : bool) (l : list (op * obs)) : bool *
       let lg' := rev (o_events ob) ++ lg in
       let sh' := sh || is_shutdown o in
       let sn := mkSnap lg' (if sh' then None else Some (o_served ob)) (map snd (o_pins ob)) in
-      let here := handles_okb sn && (o_uac ob =? 0) && (o_dc ob =? 0) in
+      let here := (negb (o_full ob) || handles_okb sn) && (o_uac ob =? 0) && (o_dc ob =? 0) in
       let '(rest, lgf) := spec_steps lg' sh' t in
       (here && rest, lgf)
   end.
